@@ -245,7 +245,11 @@ func (fx *FX) buildScripts() {
 				// vacuity guards are decided on the quantifier-free part of the assumptions
 				tail = stripQuantifiedAsserts(specs.String()) + qfPrefix.String() + "(assert " + it.reach.S + ")\n"
 			}
-			b.WriteString(e.W.Preamble(tail))
+			pre := e.W.Preamble(tail)
+			if it.ob.Kind == "cover" {
+				pre = stripQuantifiedAsserts(pre)
+			}
+			b.WriteString(pre)
 			b.WriteString(tail)
 			b.WriteString("(check-sat)\n")
 			it.ob.Script = b.String()
